@@ -9,6 +9,10 @@ stream could have seen and not yet handed out.  ``expect(spec, rem, ended)`` say
     ("pending",)     must not be complete (nothing in rem satisfies it and more may arrive)
     ("fail",)        cannot be satisfied and never will: must fail with StreamClosedError
     ("unsat",)       delimiter/regex not found within max_bytes: stream must close, read must fail
+    ("pending_or_unsat",) / ("fail_or_unsat",)   EITHER: no match within max_bytes is possible any more but
+                     not more than max_bytes bytes are buffered yet: the read may still be pending (resp.
+                     fail with the end-of-stream error) or the stream may already have closed with
+                     UnsatisfiableReadError; it must never return
 
 Read specs (plain tuples so cases are JSON-able):
     ("bytes", n, partial)  ("into", n, partial)  ("until", delim_index, mb)  ("regex", rx_index, mb)
@@ -66,6 +70,25 @@ def resolve_max_bytes(spec, rest_of_stream):
     return max(0, m[1] + mb[1])
 
 
+def match_within_still_possible(spec, rem, max_bytes):
+    """rem holds no complete match ending within max_bytes; can any continuation of rem still produce one?
+    Delimiters: exact (some start p with p + len(d) <= max_bytes whose already buffered part rem[p:] is a
+    prefix of d).  Regexes: conservative - possible as long as fewer than max_bytes bytes are buffered."""
+    if spec[0] == "until":
+        d = DELIMS[spec[1]]
+        dl = len(d)
+        for p in range(max(0, len(rem) - dl + 1), max_bytes - dl + 1):
+            if d.startswith(bytes(rem[p:])):
+                return True
+        return False
+    return len(rem) < max_bytes
+
+
+def may_be_unsat(exp):
+    """the model allows (or requires) the stream to close with UnsatisfiableReadError"""
+    return exp[0] in ("unsat", "pending_or_unsat", "fail_or_unsat")
+
+
 def expect(spec, rem, ended, max_bytes=None):
     kind = spec[0]
     if kind in ("bytes", "into"):
@@ -88,6 +111,11 @@ def expect(spec, rem, ended, max_bytes=None):
             return ("data", bytes(rem[: m[1]]))
         if m is not None or len(rem) > max_bytes:
             return ("unsat",)
+        if not match_within_still_possible(spec, rem, max_bytes):
+            # provably unsatisfiable although not more than max_bytes bytes are buffered yet: the docstring's
+            # "closed if more than max_bytes bytes have been read" is an 'if', so the stream may already
+            # close with UnsatisfiableReadError - or keep waiting for the byte that exceeds the limit
+            return ("fail_or_unsat",) if ended else ("pending_or_unsat",)
         return ("fail",) if ended else ("pending",)
     if kind == "close":
         return ("data", bytes(rem)) if ended else ("pending",)
@@ -304,7 +332,7 @@ def verdict(ctx, P, rd, rem, ended, end_errors, stream, overflow_ok=False, detai
             fail(".read_failed_but_satisfiable", dict(d, real_error=repr(real)))
         if exp[0] == "pending":
             fail(".read_failed_while_open", dict(d, real_error=repr(real)))
-        if exp[0] == "unsat":
+        if exp[0] in ("unsat", "pending_or_unsat", "fail_or_unsat"):
             ok = isinstance(real, UnsatisfiableReadError) or (ended and any(real is e for e in end_errors))
             if not ok:
                 fail(".real_error_unsatisfiable", dict(d, real_error=repr(real)))
@@ -328,7 +356,7 @@ def verdict(ctx, P, rd, rem, ended, end_errors, stream, overflow_ok=False, detai
 
     fut = rd.fut
     if not fut.done():
-        if exp[0] == "pending":
+        if exp[0] in ("pending", "pending_or_unsat"):
             return ("pending", 0)
         fail(".read_never_completes", d)
         return ("failed", 0)
@@ -377,7 +405,7 @@ def verdict(ctx, P, rd, rem, ended, end_errors, stream, overflow_ok=False, detai
             fail(".partial_length", d)
         if got != bytes(rem[: len(got)]):
             fail(".wrong_data", dict(d, want_head=bytes(rem[:40])))
-    elif exp[0] == "unsat":
+    elif exp[0] in ("unsat", "pending_or_unsat", "fail_or_unsat"):
         if len(got) > rd.mb:
             fail(".returned_more_than_max_bytes", d)
         fail(".returned_instead_of_closing", d)
